@@ -29,7 +29,7 @@ def lengths(spec, n, variant):
         return [n + 1] if variant == "depot" else [n]
     if spec in ("op", "pctsp", "spctsp"):
         return [n + 1]
-    return [n + 1, n + 2]
+    return [n + 1, n, n + 2]  # n: a single route without any depot visit in the vector
 
 
 def run_oracle(sp, row, n, variant, acts, margin_value, lenient_last):
